@@ -31,11 +31,24 @@ type pairLE struct {
 	C [2]uint8
 }
 
-var encKinds = []string{"i8", "i16", "i32", "i64", "u16", "u32", "u64", "int", "str16", "bytes3", "structle", "structbe"}
+var encKinds = []string{"i8", "i16", "i32", "i64", "u16", "u32", "u64", "int", "str16", "bytes3", "structle", "structbe", "bytes64", "bytes1k", "str16long"}
+
+// bytesSize: width of the fixed-size byte-slice encoders.
+func bytesSize(kind string) int {
+	switch kind {
+	case "bytes3":
+		return 3
+	case "bytes64":
+		return 64
+	case "bytes1k":
+		return 1024
+	}
+	return 0
+}
 
 // fixedEncKinds: encoders whose values have a fixed width (scans with values
 // are only well defined for these in today's slim, see DESIGN 10).
-func encFixed(kind string) bool { return kind != "str16" }
+func encFixed(kind string) bool { return kind != "str16" && kind != "str16long" }
 
 func encoderOf(kind string) encode.Encoder {
 	switch kind {
@@ -55,10 +68,10 @@ func encoderOf(kind string) encode.Encoder {
 		return encode.U64{}
 	case "int":
 		return encode.Int{}
-	case "str16":
+	case "str16", "str16long":
 		return encode.String16{}
-	case "bytes3":
-		return encode.Bytes{Size: 3}
+	case "bytes3", "bytes64", "bytes1k":
+		return encode.Bytes{Size: bytesSize(kind)}
 	case "structle":
 		e, err := encode.NewTypeEncoderEndian(pairLE{}, binary.LittleEndian)
 		if err != nil {
@@ -163,11 +176,26 @@ func valuesOf(kind string, ids []int64, extra int) interface{} {
 			}
 		}
 		return v[:n]
-	case "bytes3":
+	case "str16long":
+		// long variable-width payloads (up to ~600 bytes): big value arrays with few keys
+		v := make([]string, n+extra)
+		for i := range v {
+			x := id(i)
+			v[i] = strings.Repeat(fmt.Sprint("val", x, "-"), int(x%97)+1)
+		}
+		return v[:n]
+	case "bytes3", "bytes64", "bytes1k":
+		sz := bytesSize(kind)
 		v := make([][]byte, n+extra)
 		for i := range v {
-			x := spread(id(i))
-			v[i] = []byte{byte(x), byte(x >> 8), byte(x >> 16)}
+			x := uint64(spread(id(i)))
+			b := make([]byte, sz)
+			for j := range b {
+				// cheap injective-enough filler derived from the id
+				x = x*6364136223846793005 + 1442695040888963407
+				b[j] = byte(x >> 56)
+			}
+			v[i] = b
 		}
 		return v[:n]
 	case "structle", "structbe":
